@@ -17,7 +17,7 @@ EXTENDS Integers, Sequences, FiniteSets, TLC, Json
 CONSTANTS Classes, Level    \* Level: "quick", "thorough", or "cycles" (C01: only hierarchies with an inheritance cycle)
 
 Aliases == {"X", "Y"}
-Wrappers == {"plain", "array", "dict"}
+Wrappers == {"plain", "array", "array2", "dict"}   \* array2: T[][], indexed twice
 
 VARIABLES parents,  \* [Classes -> SUBSET Classes]
           shared,   \* SUBSET Classes : classes that declare the field "fshared" besides their own field
@@ -51,6 +51,19 @@ ExtraField(c) == "f_" \o c \o "x"      \* the field of the class's second declar
 Members == IF Target = "none" THEN {}
            ELSE {OwnField(c) : c \in Ancestors(Target)} \cup (IF Ancestors(Target) \cap shared # {} THEN {"fshared"} ELSE {})
                 \cup (IF split \in Ancestors(Target) THEN {ExtraField(split)} ELSE {})
+
+\* After the file that holds the declaration of class g alone is deleted (and the deletion reported), g is no class any
+\* more: a variable typed with it has no members, and a class that names it as parent inherits nothing through it.
+RECURSIVE UpW(_, _, _)
+UpW(S, seen, g) == LET new == (UNION {parents[c] \ {g} : c \in S}) \ seen
+                   IN IF new = {} THEN seen ELSE UpW(new, seen \cup new, g)
+AncestorsW(c, g) == UpW({c}, {c}, g)
+MembersAfter(g) == IF Target = "none" \/ Target = g THEN {}
+                   ELSE {OwnField(c) : c \in AncestorsW(Target, g)}
+                        \cup (IF AncestorsW(Target, g) \cap shared # {} THEN {"fshared"} ELSE {})
+                        \cup (IF split \in AncestorsW(Target, g) THEN {ExtraField(split)} ELSE {})
+\* model fact: deleting a class never adds members
+DeleteShrinks == \A g \in Classes : MembersAfter(g) \subseteq Members
 
 \* As built (known finding Dev_SplitClassLocalDeclarationHidesOthers): a class name is looked up in the file the
 \* lookup starts from first, and only if that file does not declare it in all files.  The ---@type line and the
@@ -94,6 +107,7 @@ Init == /\ parents \in [Classes -> SUBSET Classes]
         \* aliases matter only when the variable is typed through one
         /\ (ty \in Classes => alias = DefaultAlias)
         /\ (Level = "quick" => (wrap = "plain" \/ shared = {}))
+        /\ (wrap = "array2" => shared = {} /\ where = "type")
         /\ (Level = "quick" => Cardinality({<<c, d>> \in Classes \X Classes : d \in parents[c]}) <= 3)
 
 Next == UNCHANGED vars
@@ -104,6 +118,6 @@ SelfMember == Target # "none" => OwnField(Target) \in Members
 CycleSafe == Target \in Classes \cup {"none"}
 
 Emit == PrintT("@@J " \o ToJson([fam |-> "classgraph", parents |-> parents, shared |-> shared, alias |-> alias, ty |-> ty, wrap |-> wrap, where |-> where, layout |-> layout, split |-> split,
-                                 target |-> Target, members |-> Members, membersdev |-> MembersDev,
+                                 target |-> Target, members |-> Members, membersafter |-> MembersAfter("KC"), membersdev |-> MembersDev,
                                  decl |-> [m \in Members |-> Declarers(m)]]))
 =============================================================================
